@@ -34,7 +34,7 @@ prop("C01", "exploration", "reference-device chain validation over random histor
      "Exploration is the right level: the statement quantifies over unbounded histories, which a monitor samples.",
      "LedgerHal (bounce buffers, synthetic addresses), ModelTransport and the reference device are harness code; histories are sampled, sizes and flag combinations are all visited.",
      QRULE + "Oracle events counted in observed.chains_validated / descriptors_validated / chains_fetched.",
-     [stage("checked")], [stage("checked", scale=1500, timeout=2400), stage("asan", scale=250, optional=True, timeout=2400), stage("miri", scale=1000, optional=True, timeout=3600)])
+     [stage("checked")], [stage("checked", scale=1500, timeout=2400), stage("asan", scale=80, optional=True, timeout=2400), stage("miri", scale=1000, optional=True, timeout=3600)])
 
 prop("C02", "exploration", "store-hook monitor: reference device re-validates all visible entries after every device-visible store",
      "After every store the library makes to device-visible queue memory (cfg hook) the reference device reads the available index from memory and validates every entry below it that it has "
@@ -49,14 +49,14 @@ prop("C03", "exploration", "lock-step sequential reference ring (executable mode
      "capacity unchanged; a capacity probe at the end of every history measures the free-descriptor count behaviourally; long runs cross the 16-bit index wrap several times.",
      "available_desc() in indirect mode is only required to be 0 iff full (documented library behaviour); model evaluated at the instant of the driver's index load when the device completes inside load hooks.",
      QRULE + "Oracle events: observed.pops_attempted / pops_wrong_token / pops_not_ready / queries / capacity_probes; cases_index_wrap counts histories longer than 65536 submissions.",
-     [stage("checked")], [stage("checked", scale=1500, timeout=2400), stage("asan", scale=250, optional=True, timeout=2400), stage("miri", scale=1000, optional=True, timeout=3600)])
+     [stage("checked")], [stage("checked", scale=700, timeout=2400), stage("asan", scale=25, optional=True, timeout=2400), stage("miri", scale=1000, optional=True, timeout=3600)])
 
 prop("C04", "exploration", "instrumented Hal ledger (share/unshare matching, bounce buffers) + data-timing canaries",
      "The Hal handed to the library bounces every buffer to a distinct synthetic address and matches every unshare against its share on address, range, direction and access_platform; "
      "writable caller buffers carry a canary until the completion is consumed and must hold the device's unique pattern right after; the reference device can only resolve addresses obtained from share or dma_alloc.",
      "Bounce mode only (virtual and device addresses never coincide); leak audit only after fully drained histories.",
      QRULE + "Oracle events: ledger share/unshare matches (every add/pop), observed.bytes_checked = device-written bytes compared in caller buffers.",
-     [stage("checked")], [stage("checked", scale=1500, timeout=2400), stage("asan", scale=250, optional=True, timeout=2400), stage("miri", scale=1000, optional=True, timeout=3600)])
+     [stage("checked")], [stage("checked", scale=1500, timeout=2400), stage("asan", scale=80, optional=True, timeout=2400), stage("miri", scale=1000, optional=True, timeout=3600)])
 
 prop("C05", "exploration", "spec-predicate monitor on real should_notify() calls (index space enumerated by running) + spin-hook co-simulation of blocking helpers",
      "(a) one real add sequence and one real should_notify() call per (previous index, new index, device event index) instance, compared with the specification's vring_need_event / NO_NOTIFY flag; "
@@ -107,7 +107,7 @@ prop("C11", "exploration", "independent reference parser (128-bit arithmetic) ov
      "a case is one generated configuration space: canonical (1/4), canonical with 1..3 hostile mutations (1/2: duplicated capabilities before/after, hostile offset/length/bar/cap_len/multiplier, BAR unallocated or turned into an I/O BAR, list bit cleared), or fully hostile (1/4: 0..8 capabilities of types 0..255 in random order, "
      "cap_len in {0,15,16,19,20,24}, offsets/lengths from {0, small, BAR size -1/0/+1, 2^31, 2^32-1, pairs summing to >= 2^32}, BARs 32/64-bit/I-O/unallocated/unimplemented up to 2^63, capability structures at the very end of configuration space), followed by 40 checked operations and a checked drop when construction succeeds. "
      "Non-trivial: always (construction reached Ok or Err and was compared with the reference). distinct: key of (seed, case number), which determines the space.",
-     [stage("checked"), stage("release", scale=500)], [stage("checked", scale=15000), stage("release", scale=4000)])
+     [stage("checked"), stage("release", scale=500)], [stage("checked", scale=60000), stage("release", scale=15000)])
 
 prop("C13", "exploration", "MMIO bus trace per configuration access (bounds, exact bytes) + versioned configuration store with scheduler-controlled updates between individual reads",
      "(a) every read/write_config_space call on the real MMIO (legacy and modern) and PCI transports is judged from the bus trace: in-window accesses must return Ok and touch exactly the bytes of the field once, everything else must return the too-small / missing error with no access at all (offset + size evaluated without wrap-around), in both the overflow-checked and the plain release profile; "
@@ -126,7 +126,7 @@ prop("C14", "exploration", "reference block device (sparse in-memory disk) parsi
      "a case is one VirtIOBlk instance (transport in {model, model-legacy, MMIO modern/legacy, SomeTransport(MMIO), PCI}; offered features: all 16 subsets of {RO, FLUSH, INDIRECT_DESC, EVENT_IDX} by case number plus random unsupported bits; capacity in {0,1,2048,2^32,2^32+5,2^64-1}; device notification policy serve-on-notify / polling+suppression / eager) driven through 300 (thorough 600) steps of "
      "read/write of 1..8 sectors at sectors incl. 0, 2^32, 2^63, flush, device_id, device statuses {OK, IOERR, UNSUPP, 3, 0xff}, non-blocking submissions (bursts up to queue-full), completions in random order with wrong-token probes, interrupt acknowledgement. "
      "Non-trivial iff at least 2 non-blocking requests were outstanding at once and at least one request completed with its data checked; distinct by hash of (configuration, operation list).",
-     [stage("checked", scale=8000)], [stage("checked", scale=200000), stage("asan", scale=8000, optional=True)])
+     [stage("checked", scale=8000)], [stage("checked", scale=12000), stage("asan", scale=1500, optional=True)])
 
 prop("C15", "exploration", "reference console device feeding a position-coded byte stream; every byte returned by the public API identifies its stream position",
      "The real VirtIOConsole runs against a reference console whose receive stream is a function of the byte position, so any byte the API returns is checked against exactly the position it must have (loss, duplication and reordering all show as a mismatch); "
@@ -134,7 +134,7 @@ prop("C15", "exploration", "reference console device feeding a position-coded by
      DRV_NOTE + " Liveness of polling recv() alone after a bulk read is not part of the (safety) statement.",
      "a case is one VirtIOConsole (transport model / model-no-unset / MMIO modern / MMIO legacy / PCI; INDIRECT_DESC x EVENT_IDX by case number; device policy serve-on-notify / polling / eager) driven through 600 (thorough 2000) API calls drawn from recv(peek), recv(pop), read (sizes 0,1,..600,4096,5000), fill_buf+consume, read_ready, ack_interrupt, send, send_bytes, embedded_io::Write, "
      "with device chunks of 1..4096 bytes delivered at API boundaries, inside wait loops (spin hook) and inside the driver's used-index loads (dma hook). Non-trivial iff at least one received byte was checked; distinct by hash of (configuration, operation list).",
-     [stage("checked", scale=8000)], [stage("checked", scale=200000), stage("asan", scale=8000, optional=True)])
+     [stage("checked", scale=8000)], [stage("checked", scale=17000), stage("asan", scale=1500, optional=True)])
 
 prop("C16", "exploration", "reference network device with uniquely numbered frames + receive-buffer ownership ledger (conservation check at every quiescent point)",
      "Both network drivers run against a reference NIC: every transmit chain is compared byte-wise with [zeroed header of the negotiated size][caller's frame] (raw transmit_begin: the caller's buffer verbatim); the device injects uniquely numbered frames of every length into posted buffers in arbitrary order and the driver's result is compared byte-wise; "
@@ -142,7 +142,7 @@ prop("C16", "exploration", "reference network device with uniquely numbered fram
      DRV_NOTE + " Buffer lengths respect the documented minimum (1526 bytes after rounding to whole words).",
      "a case is one driver instance (VirtIONet or VirtIONetRaw; QUEUE_SIZE in {2,4,16}; with/without VERSION_1 => 12/10-byte header; INDIRECT_DESC x EVENT_IDX; random unsupported offload bits offered; transport model / model-legacy / MMIO modern / MMIO legacy / PCI; buffer length 1528..65535) driven through 500 (thorough 2000) steps of "
      "frame injection bursts in arbitrary buffer order (frame length 0, 1, 1514, max, random), receive, recycle in arbitrary order, blocking send, raw receive_begin/poll/complete, receive_wait (device injects from the spin hook), raw transmit_begin/poll/complete. Non-trivial iff at least one received frame was compared; distinct by hash of (configuration, operation list).",
-     [stage("checked", scale=8000)], [stage("checked", scale=200000), stage("asan", scale=8000, optional=True)])
+     [stage("checked", scale=8000)], [stage("checked", scale=12000), stage("asan", scale=1000, optional=True)])
 
 prop("C17", "exploration", "reference vsock peer holding both credit windows and both byte streams in 64-bit arithmetic; every transmitted header decoded",
      "The real VsockConnectionManager/VirtIOSocket run against a reference peer: every packet on the transmit queue is decoded and checked (addressing, length, stream type, buf_alloc = configured capacity, fwd_cnt = bytes the application has read, advertised free space never above real free space); "
@@ -151,7 +151,7 @@ prop("C17", "exploration", "reference vsock peer holding both credit windows and
      DRV_NOTE + " The peer's window may shrink, but never below what is still in flight after its own consumption. Situations the property leaves open (data before the response, request on an existing connection) are not generated.",
      "a case is one connection manager (per-connection capacity in {1,2,7,16,100,512,1024,4096,65536}; RX buffer 128/512 bytes; INDIRECT_DESC x EVENT_IDX; transports model/MMIO/PCI; device policy on-notify/polling/eager) driven through 600 (thorough 3000) steps of connect, listen, peer requests, sends of 1..4096 bytes, peer data within the advertised credit, recv of 0..2*capacity+1 bytes, "
      "peer credit updates with partial consumption and changed windows, credit requests, shutdown/reset, packets for unknown connections and malformed packets; plus case 0 = 4.5 GiB transmit-counter wrap run and (thorough) case 1 = 4.5 GiB receive/forward-counter wrap run on 64 KiB receive buffers. Non-trivial iff at least one packet was polled or stream byte checked; distinct by hash of (configuration, operation list, case).",
-     [stage("checked", scale=8000)], [stage("checked", scale=200000), stage("release", scale=20000)])
+     [stage("checked", scale=8000)], [stage("checked", scale=12000), stage("release", scale=4000)])
 
 prop("C18", "exploration", "lock-step reference connection table + posted-receive-buffer count after every poll",
      "The same co-simulation with a state-focused workload: a reference table keyed by (peer cid, peer port, local port) predicts for every polled packet the event reported and the exact packets the driver must send (response on listening ports, reset and no event otherwise, nothing for unknown or foreign-cid tuples, credit update on credit request, reset when a shut-down connection is drained), "
@@ -159,7 +159,7 @@ prop("C18", "exploration", "lock-step reference connection table + posted-receiv
      DRV_NOTE + " Unspecified situations (request on an existing connection, reset with data buffered, data before the response) are not generated.",
      "a case is one connection manager with 4 peers x 4 local ports driven through 600 (thorough 3000) steps over all local operations (listen, unlisten, connect, send, recv, shutdown, force_close, update_credit) and all peer packet kinds incl. op 0, op > 7, control packets with data, truncated headers (used length < 44), length field > used length, wrong destination cid. "
      "Non-trivial iff at least one packet was polled; distinct by hash of (configuration, operation list, case).",
-     [stage("checked", scale=8000)], [stage("checked", scale=200000), stage("asan", scale=8000, optional=True)])
+     [stage("checked", scale=8000)], [stage("checked", scale=12000), stage("asan", scale=1000, optional=True)])
 
 prop("C19", "exploration", "reference device completing posted buffers in arbitrary order with uniquely numbered events; completion-order FIFO compared with deliveries; posted-buffer census after every poll",
      "OwningQueue is exercised directly for SIZE in {1,2,8,32} x BUFFER_SIZE in {8,64,512}, and through VirtIOInput::pop_pending_event and VirtIOSound::latest_notification on model/MMIO/PCI transports (the socket receive queue is audited in C18): the reference device fills any posted buffer with a uniquely numbered event of any length 0..=BUFFER_SIZE, "
@@ -177,7 +177,7 @@ prop("C20", "exploration", "five reference devices decoding every request chain 
      "a case is one driver instance of one of the five devices (transport model / model-no-unset / MMIO modern / MMIO legacy / PCI; INDIRECT_DESC x EVENT_IDX; device notification policy) driven through 40..60 operations with random parameters: entropy lengths 1..64 KiB with short deliveries; all three clock messages x statuses {0,1,2,3,4,5,6,0xff} x clock types/smearing/flags; "
      "9P requests with size field ==/!= used length and invalid buffer sizes; GPU resolution/framebuffer setup/change_resolution/flush/cursor setup+move with 1-in-8 unexpected responses, plus EDID cases of 400 random/structured 1024-byte blobs with size fields {0,127,128,129,256,1024,2^32-1}; sound set_params (valid/invalid), stream commands, jack remap, capability getters, blocking pcm_xfer of 1..40 periods (+ partial tail) and non-blocking batches. "
      "Non-trivial iff at least one request/response pair was checked; distinct by hash of (device, configuration, operation list, case).",
-     [stage("checked", scale=8000)], [stage("checked", scale=200000), stage("asan", scale=8000, optional=True)])
+     [stage("checked", scale=8000)], [stage("checked", scale=22000), stage("asan", scale=2000, optional=True)])
 
 prop("C08", "exploration", "ordered transport-event log (model transport calls / decoded register writes of the real MMIO and PCI transports) checked by a handshake automaton; device-side feature gates",
      "Each of the eleven drivers is constructed on eight transport variants for every subset of its relevant feature bits; the ordered log of transport events must be reset -> ACKNOWLEDGE|DRIVER -> features read -> features written (subset of the offer, VERSION_1 accepted when offered, nothing outside the driver's implemented set) -> FEATURES_OK -> queue set-up -> DRIVER_OK with no notification before DRIVER_OK; "
